@@ -26,7 +26,7 @@ EXPLANATION = (
 ASSUMPTIONS = [
     "attribute dictionaries of diagram nodes are reached only through node_data(), dag.nodes[...] or cast() of "
     "those (checked: any other access pattern to dag.nodes is reported by C04-T2)",
-    "a stale candidate list remains a valid cover, so attractor_candidates may be kept across expansion",
+    "after an empty-list mark of the seeds the candidate list is never consulted for seeds again",
     "exceptional exits are covered by C15, not here",
 ]
 
@@ -83,6 +83,14 @@ def r1(ck: Check, gm: GrowthModel) -> None:
                 esc = escapes(fm, g.cfgn, cuts, loop)
                 if esc:
                     missing.append(f"{fld} (path reaches {esc})")
+            # stale candidates would be re-validated against the new children (a fixed point inside a child
+            # becomes a seed of the parent): they must go too, unless the seeds are replaced by the empty mark,
+            # after which candidates are never consulted for seeds again
+            cuts = [e.cfgn for e in handle_stores(fm, hk, "attractor_candidates") if is_none(e.value)] + \
+                   [e.cfgn for e in handle_stores(fm, hk, "attractor_seeds") if is_empty_list(e.value)] + exempt
+            esc = escapes(fm, g.cfgn, cuts, loop)
+            if esc:
+                missing.append(f"attractor_candidates (path reaches {esc})")
             ck.ob("R1", fm, g.stmt, not missing,
                   ("node `%s` gains a successor (%s) but %s not discarded on every path" % (
                       text(g.parent_expr), g.via, " and ".join(missing) + " is/are")) if missing else
@@ -98,7 +106,7 @@ def r1(ck: Check, gm: GrowthModel) -> None:
                 loop = region_of(fm, e.cfgn, [e.node.value])
                 exempt = expanded_assertions(fm, e.hk, True)
                 missing = []
-                for fld in ("attractor_seeds", "attractor_sets"):
+                for fld in ATTR_FIELDS:
                     cuts = [x.cfgn for x in handle_stores(fm, e.hk, fld) if is_none(x.value)] + exempt
                     # the reset must precede the mark on every path from the region start
                     if _reaches_without(fm, e.cfgn, cuts, loop):
